@@ -155,7 +155,7 @@ def c11_4(ctx):
     fn = ctx.repo.fn('_dictable:dictable.xyz')
     grid = [s for s in fn.body if isinstance(s, ast.Assign) and U(s.targets[0]) == 'res']
     ctx.count(1, fn.where())
-    if not grid or N(grid[0].value) not in ('[[None for _ in range(len(ys))] for _ in range(len(xs))]', '[[None] * len(ys) for _ in range(len(xs))]'):   # a fresh row of Nones per x, either way
+    if not grid or N(grid[0].value) not in ('[[None for _ in range(len(ys))] for _ in range(len(xs))]', '[[None] * len(ys) for _ in range(len(xs))]', '[[None] * len(ys) for _ in xs]', '[[None for _ in range(len(ys))] for _ in xs]'):   # a fresh row of Nones per x, either way
         ctx.fail(fn, grid[0] if grid else fn.node, 'pivot grid is not initialised with None for every (x, y) cell: %s' % (U(grid[0].value) if grid else '?'))
     st = [s for s in ast.walk(fn.node) if isinstance(s, ast.Assign) and N(s.targets[0]) == 'res[i][k]']
     ctx.count(1)
@@ -163,9 +163,10 @@ def c11_4(ctx):
         ctx.fail(fn, fn.node, 'cell (i, k) no longer receives the (aggregated) z values')
     defs = {U(s.targets[0]): N(s.value) for s in ast.walk(fn.node) if isinstance(s, ast.Assign) and isinstance(s.targets[0], ast.Name)}
     want = {'xy': 'xys[j]', 'k': 'y2id[xy[-1]]', 'value': None, 'zs': 'self[z]', 'xykeys': NS('x + as_tuple(y)'), 'y2id': 'dict(zip(ys[y_], range(len(ys))))'}
+    alt = {'y2id': ('dict(zip(ys[y_], range(len(ys[y_]))))',)}        # ys[y_] is a column of the table ys: the same length
     for k, v in want.items():
         ctx.count(1)
-        if v is not None and defs.get(k) != v:
+        if v is not None and defs.get(k) != v and defs.get(k) not in alt.get(k, ()):
             ctx.fail(fn, fn.node, 'pivot: `%s` is `%s`, expected `%s`' % (k, defs.get(k), v))
     vals = [s for s in ast.walk(fn.node) if isinstance(s, ast.Assign) and U(s.targets[0]) == 'value']
     if not vals or N(vals[0].value) != '[zs[id_] for id_ in ids[j]]':
